@@ -1,250 +1,278 @@
-(* Proofs about the SimpleClient model (property C19).  Every theorem quantifies over ALL
-   schedules (lists of choices of any length), any number of producers with arbitrary
-   scripts, any consumer script, both granularities, unless it says otherwise. *)
+(* Theorems about the SimpleClient model (property C19), built on the invariants of
+   SimpleInv.v.  `mreach v (init P C) c` says that c is reachable from the state after
+   connect() by some schedule at the granularity of single accesses; every run of either
+   granularity ends in such a state (reach_run). *)
 From Coq Require Import Lia ZifyBool.
 From VT Require Import Base.PyVal Simple.SimpleClient.
+From VT Require Export Simple.SimpleInv.
 Local Open Scope nat_scope.
 
 (* ------------------------------------------------------------------------------------ *)
-(* reachability at the granularity of single accesses; the asyncio runs are a subset     *)
+(* Theorems on reachable states                                                          *)
 (* ------------------------------------------------------------------------------------ *)
-Inductive mreach (v : variant) (c0 : cfg) : cfg -> Prop :=
-| mr_init : mreach v c0 c0
-| mr_step c ch c' l : mreach v c0 c -> micro v c ch = Some (c', l) -> mreach v c0 c'.
+Definition e_a : hop := HEvent (PStr (s2l "a")) [PInt 1%Z].
+Definition e_b : hop := HEvent (PStr (s2l "b")) [].
+Definition item_a : pv := PList [PStr (s2l "a"); PInt 1%Z].
 
-Lemma citer_reach v c0 fuel : forall c acc, mreach v c0 c -> mreach v c0 (fst (citer fuel c acc)).
+(* pop(0) never meets an empty buffer and no call ever ends in IndexError *)
+Theorem pop_never_empty v P C c : mreach v (init P C) c ->
+  (pc c = RPop -> buf (sh c) <> []) /\ ~ In (Raised IndexError) (outs (sh c)).
 Proof.
-  induction fuel as [|f IH]; intros c acc Hr; simpl; [exact Hr|].
-  destruct (cstep c) as [[c' l]|] eqn:E; [|exact Hr].
-  assert (Hr' : mreach v c0 c') by (apply (mr_step v c0 c 0 c' l); assumption).
-  destruct (List.length (cscript c') <? List.length (cscript c)); [exact Hr'|apply IH; exact Hr'].
+  intro Hr. destruct (ctl_reach v P C c Hr) as (_ & Hb & Ho). split; [|exact Ho].
+  unfold blk_ok in Hb. intro E. rewrite E in Hb. exact Hb.
 Qed.
+Example pop_never_empty_nontrivial :
+  let c := run pinned false (init [[e_a]] [Recv false]) [2; 2; 0] in pc c = RPop /\ buf (sh c) = [item_a].
+Proof. vm_compute. split; reflexivity. Qed.
 
-Lemma piter_reach v c0 fuel i : forall c acc, mreach v c0 c -> mreach v c0 (fst (piter v fuel c i acc)).
+(* The timeout of a wait can fire only while the awaited flag is clear; for the wait on the
+   input flag, moreover, only while every buffered item is still being handed off (its
+   producer has appended and not yet signalled): no completed hand-off is unconsumed. *)
+Theorem timeout_only_if_empty v P C c c' l : mreach v (init P C) c -> tstep c = Some (c', l) ->
+  (pc c = RCW WBlocked /\ cev (sh c) = false) \/
+  (pc c = RIW WBlocked /\ iev (sh c) = false /\
+   List.length (buf (sh c)) <= count mid_handoff (prods c)).
 Proof.
-  induction fuel as [|f IH]; intros c acc Hr; simpl; [exact Hr|].
-  destruct (pstep v c i) as [[c' l]|] eqn:E; [|exact Hr].
-  assert (Hr' : mreach v c0 c') by (apply (mr_step v c0 c (S (S i)) c' l); assumption).
-  destruct (nth_error (prods c') i) as [p|]; [|exact Hr'].
-  destruct (ppc p =? 0); [exact Hr'|apply IH; exact Hr'].
+  intros Hr E. destruct (ctl_reach v P C c Hr) as (_ & Hb & _). pose proof (win_reach v P C c Hr) as Hw.
+  unfold tstep in E. destruct (cur_timeout c); [|discriminate]. unfold blk_ok in Hb. unfold win_inv in Hw.
+  destruct (pc c) as [|[]| |[]| | |[]| | |]; try discriminate.
+  - left; auto.
+  - right. split; [reflexivity|]. split; [exact Hb|].
+    destruct (Hw eq_refl) as [Hi|Hl]; [congruence|exact Hl].
 Qed.
-
-Lemma step_reach v atomic c0 c ch : mreach v c0 c -> mreach v c0 (fst (step v atomic c ch)).
+Corollary timeout_input_wait_buffer_empty v P C c c' l : mreach v (init P C) c -> tstep c = Some (c', l) ->
+  pc c = RIW WBlocked -> existsb mid_handoff (prods c) = false -> buf (sh c) = [].
 Proof.
-  intro Hr. unfold step. destruct atomic.
-  - destruct ch as [|[|i]].
-    + apply citer_reach; exact Hr.
-    + destruct (tstep c) as [[c' l]|] eqn:E; [|exact Hr].
-      apply (mr_step v c0 c 1 c' l); assumption.
-    + apply piter_reach; exact Hr.
-  - destruct (micro v c ch) as [[c' l]|] eqn:E; [|exact Hr].
-    apply (mr_step v c0 c ch c' l); assumption.
+  intros Hr E Hp Hm. destruct (timeout_only_if_empty v P C c c' l Hr E) as [[H _]|(_ & _ & H)]; [congruence|].
+  assert (Hc : ~ count mid_handoff (prods c) > 0) by (rewrite <- existsb_count; congruence).
+  destruct (buf (sh c)); [reflexivity|simpl in H; lia].
 Qed.
+Example timeout_only_if_empty_nontrivial :
+  let c := run pinned false (init [[e_a]] [Recv true]) [0; 0; 0; 0; 2] in
+  pc c = RIW WBlocked /\ tstep c <> None /\ buf (sh c) = [item_a] /\ count mid_handoff (prods c) = 1.
+Proof. vm_compute. repeat split; discriminate. Qed.
 
-Lemma run_reach v atomic c0 sched : forall c, mreach v c0 c -> mreach v c0 (run v atomic c sched).
+(* DisconnectedError is raised only while `connected` is False, which happens only after a
+   __disconnect_final has started *)
+Theorem disconnected_only_after_final v P C c c' l : mreach v (init P C) c ->
+  cstep c = Some (c', l) -> In (LRaise DisconnectedError) l ->
+  conn (sh c) = false /\ ended (sh c) = true.
 Proof.
-  induction sched as [|ch r IH]; intros c Hr; simpl; [exact Hr|].
-  apply IH. apply step_reach. exact Hr.
-Qed.
-
-Lemma reach_run v atomic c0 sched : mreach v c0 (run v atomic c0 sched).
-Proof. apply run_reach. constructor. Qed.
-
-(* an invariant of the single-access system holds after every run of either granularity *)
-Lemma invariant_run (I : cfg -> Prop) v c0 :
-  I c0 -> (forall c ch c' l, I c -> micro v c ch = Some (c', l) -> I c') ->
-  forall c, mreach v c0 c -> I c.
-Proof. intros H0 Hs c Hr. induction Hr as [|c ch c' l Hr IH E]; [exact H0|eapply Hs; eauto]. Qed.
-
-(* ------------------------------------------------------------------------------------ *)
-(* list helpers                                                                          *)
-(* ------------------------------------------------------------------------------------ *)
-Lemma returned_app a b : returned (a ++ b) = returned a ++ returned b.
-Proof. induction a as [|[x|e|] a IH]; simpl; rewrite ?IH; reflexivity. Qed.
-
-Fixpoint count (f : ptask -> bool) (l : list ptask) : nat :=
-  match l with [] => 0 | x :: r => (if f x then 1 else 0) + count f r end.
-
-Lemma count_upd f : forall l i p p', nth_error l i = Some p ->
-  count f (upd l i p') + (if f p then 1 else 0) = count f l + (if f p' then 1 else 0).
-Proof.
-  induction l as [|x l IH]; intros [|i] p p' H; simpl in *; try discriminate.
-  - inversion H; subst. lia.
-  - specialize (IH i p p' H). lia.
-Qed.
-
-Lemma existsb_count f l : existsb f l = true <-> count f l > 0.
-Proof.
-  induction l as [|x l IH]; simpl; [split; [discriminate|lia]|].
-  destruct (f x); simpl; [split; [lia|reflexivity]|]. rewrite IH. lia.
-Qed.
-
-Lemma forallb_nth f (l : list ptask) i p : forallb f l = true -> nth_error l i = Some p -> f p = true.
-Proof. intros H E. rewrite forallb_forall in H. apply H. eapply nth_error_In; eauto. Qed.
-
-Lemma forallb_count f l : forallb f l = true -> count (fun p => negb (f p)) l = 0.
-Proof.
-  induction l as [|x l IH]; simpl; [reflexivity|]. intro H. apply andb_true_iff in H as [H1 H2].
-  rewrite H1. simpl. auto.
-Qed.
-
-(* the shape of one step *)
-Ltac inv_some := match goal with H : Some _ = Some _ |- _ => inversion H; subst; clear H end.
-
-Lemma pstep_inv v c i c' l : pstep v c i = Some (c', l) ->
-  exists p s' cp' p', nth_error (prods c) i = Some p /\ phop v (sh c) (pc c) p = Some (s', cp', p', l) /\
-                      c' = mkCfg s' cp' (cscript c) (upd (prods c) i p').
-Proof.
-  unfold pstep. destruct (nth_error (prods c) i) as [p|] eqn:E; [|discriminate].
-  destruct (phop v (sh c) (pc c) p) as [[[[s' cp'] p'] l']|] eqn:E2; [|discriminate].
-  intro H; inversion H; subst. exists p, s', cp', p'. auto.
-Qed.
-
-(* ------------------------------------------------------------------------------------ *)
-(* I1: no loss, no duplication, no reordering                                            *)
-(* ------------------------------------------------------------------------------------ *)
-Definition fifo (c : cfg) : Prop := returned (outs (sh c)) ++ buf (sh c) = arrived (sh c).
-
-Lemma fifo_step v c ch c' l : fifo c -> micro v c ch = Some (c', l) -> fifo c'.
-Proof.
-  unfold fifo. intros H E. destruct ch as [|[|i]]; simpl in E.
-  - destruct c as [s p scr pr]. destruct s as [b ie ce cn ns ar ou en]. unfold cstep in E. simpl in *.
-    destruct p as [|[]| |[]| | |[]| | |]; simpl in E;
+  intros Hr E Hin. pose proof (end_reach v P C c Hr) as He. unfold end_inv in He.
+  assert (Hc : conn (sh c) = false).
+  { unfold cstep in E. destruct (pc c) as [|[]| |[]| | |[]| | |]; simpl in E;
       repeat match type of E with
              | context [match ?x with _ => _ end] => destruct x eqn:?; simpl in E
-             end; try discriminate; inv_some; simpl in *; rewrite ?returned_app; simpl;
-      rewrite ?app_nil_r; try reflexivity; try assumption;
-      try (subst; rewrite <- app_assoc; simpl; try reflexivity; assumption).
-  - destruct c as [s p scr pr]. destruct s as [b ie ce cn ns ar ou en]. unfold tstep in E. simpl in *.
-    destruct (cur_timeout _); [|discriminate].
-    destruct p as [|[]| |[]| | |[]| | |]; try discriminate; inv_some; simpl;
-      rewrite returned_app; simpl; rewrite app_nil_r; first [reflexivity|assumption].
-  - apply pstep_inv in E as (p & s' & cp' & p' & En & Eh & ->). simpl.
-    destruct c as [s cp scr pr]. destruct s as [b ie ce cn ns ar ou en]. simpl in *.
-    unfold phop in Eh. destruct (pscript p) as [|h rest]; [discriminate|].
-    destruct h; destruct (ppc p) as [|[|n]]; simpl in Eh; inv_some; simpl; try reflexivity; try assumption;
-      try (rewrite app_assoc; try rewrite H; reflexivity).
+             end; try discriminate; inv_some; simpl in Hin;
+      repeat (destruct Hin as [Hin|Hin]; try discriminate); try contradiction; auto. }
+  split; [exact Hc|exact (He Hc)].
+Qed.
+Example disconnected_only_after_final_nontrivial :
+  let c := run pinned false (init [[HDisconnect; HFinal; NsSet false]] [Recv false]) [2; 2; 2; 0; 0] in
+  exists c', cstep c = Some (c', [LConnRead false; LRaise DisconnectedError]).
+Proof. vm_compute. eexists. reflexivity. Qed.
+
+(* ------------------------------------------------------------------------------------ *)
+(* What is FALSE of the faithful (pinned) model: witnesses, all under the Client's own     *)
+(* discipline (`lifecycle`), replayed on the real classes by harness/props/c19.py          *)
+(* ------------------------------------------------------------------------------------ *)
+
+(* (7.1-j) thread granularity: the event arrives and the transport drops between receive()'s
+   emptiness test and its wait on connected_event; the timeout of THAT wait fires while a
+   completely handed-off event sits in the buffer *)
+Definition P_j : list (list hop) := [[e_a; HDisconnect; NsSet false]].
+Definition sched_j : list nat := [0; 2; 2; 2; 0].
+Theorem timeout_connected_wait_refuted :
+  exists P C sched, forallb lifecycle P = true /\
+    let c := run pinned false (init P C) sched in
+    pc c = RCW WBlocked /\ buf (sh c) = [item_a] /\ existsb mid_handoff (prods c) = false /\
+    exists c', tstep c = Some (c', [LTimeout CE; LRaise TimeoutError]) /\
+               outs (sh c') = [Raised TimeoutError] /\ buf (sh c') = [item_a].
+Proof.
+  exists P_j, [Recv true], sched_j. vm_compute. repeat split. eexists. repeat split.
 Qed.
 
-Theorem fifo_all_schedules v atomic P C sched :
-  let c := run v atomic (init P C) sched in
-  returned (outs (sh c)) ++ buf (sh c) = arrived (sh c).
+(* thread granularity: DisconnectedError is raised while an event that arrived before the
+   connection ended is still in the buffer (the next receive() returns it) *)
+Definition P_d : list (list hop) := [[e_a; HDisconnect; HFinal; NsSet false]].
+Definition sched_d : list nat := [0; 2; 2; 2; 2; 2; 0].
+Theorem disconnected_while_buffered_refuted :
+  exists P C sched, forallb lifecycle P = true /\
+    let c := run pinned false (init P C) sched in
+    buf (sh c) = [item_a] /\ existsb mid_handoff (prods c) = false /\
+    exists c', cstep c = Some (c', [LConnRead false; LRaise DisconnectedError]) /\
+               outs (sh c') = [Raised DisconnectedError] /\ buf (sh c') = [item_a].
 Proof.
-  apply (invariant_run fifo v (init P C)); [reflexivity| |apply reach_run].
-  intros; eapply fifo_step; eauto.
+  exists P_d, [Recv false], sched_d. vm_compute. repeat split. eexists. repeat split.
+Qed.
+
+(* (7.1-g) both granularities: a receive() without timeout that is registered in the input
+   wait when the connection ends for good stays there: the final disconnect has been fully
+   processed, every producer is finished and no step of any task is enabled *)
+Definition P_g : list (list hop) := [[HDisconnect; HFinal; NsSet false]].
+Definition sched_g_thread : list nat := [0; 0; 0; 0; 2; 2; 2; 2].
+Definition sched_g_async : list nat := [0; 2; 2; 2].
+Definition hung (c : cfg) : Prop :=
+  pc c = RIW WBlocked /\ cur_timeout c = false /\ ended (sh c) = true /\ conn (sh c) = false /\
+  cev (sh c) = true /\ prods_done c = true /\ quiescent pinned c = true.
+Theorem no_hang_refuted :
+  exists P C, forallb lifecycle P = true /\
+    (exists sched, hung (run pinned false (init P C) sched)) /\
+    (exists sched, hung (run pinned true (init P C) sched)).
+Proof.
+  exists P_g, [Recv false]. split; [vm_compute; reflexivity|]. split.
+  - exists sched_g_thread. vm_compute. repeat split.
+  - exists sched_g_async. vm_compute. repeat split.
+Qed.
+
+(* a quiescent configuration never moves again, whatever the schedule *)
+Lemma prods_done_pstep v c i : prods_done c = true -> pstep v c i = None.
+Proof.
+  unfold prods_done, pstep. intro H. destruct (nth_error (prods c) i) as [p|] eqn:E; [|reflexivity].
+  pose proof (forallb_nth _ _ _ _ H E) as Hp. unfold prod_done in Hp. unfold phop.
+  destruct (pscript p); [reflexivity|discriminate].
+Qed.
+
+Lemma quiescent_micro v c ch : quiescent v c = true -> micro v c ch = None.
+Proof.
+  unfold quiescent, enabled. intro H. apply andb_true_iff in H as [H Hp]. apply andb_true_iff in H as [Hc Ht].
+  destruct ch as [|[|i]]; simpl in *.
+  - destruct (cstep c); [discriminate|reflexivity].
+  - destruct (tstep c); [discriminate|reflexivity].
+  - apply prods_done_pstep. exact Hp.
+Qed.
+
+Lemma citer_none f c acc : cstep c = None -> citer (S f) c acc = (c, acc).
+Proof. intro E. cbn [citer]. rewrite E. reflexivity. Qed.
+Lemma piter_none v f c i acc : pstep v c i = None -> piter v (S f) c i acc = (c, acc).
+Proof. intro E. cbn [piter]. rewrite E. reflexivity. Qed.
+
+Theorem quiescent_stuck v atomic c sched : quiescent v c = true -> run v atomic c sched = c.
+Proof.
+  intro H. induction sched as [|ch r IH]; [reflexivity|]. simpl.
+  assert (E : step v atomic c ch = (c, [])).
+  { unfold step. destruct atomic.
+    - destruct ch as [|[|i]].
+      + pose proof (quiescent_micro v c 0 H) as E. cbn [micro] in E. unfold cfuel. apply citer_none. exact E.
+      + pose proof (quiescent_micro v c 1 H) as E. cbn [micro] in E. rewrite E. reflexivity.
+      + pose proof (quiescent_micro v c (S (S i)) H) as E. cbn [micro] in E. apply piter_none. exact E.
+    - rewrite (quiescent_micro v c ch H). reflexivity. }
+  rewrite E. simpl. exact IH.
 Qed.
 
 (* ------------------------------------------------------------------------------------ *)
-(* I2: control invariant - a registered waiter sees a clear flag, a notified input waiter *)
-(*     a set flag, pop(0) never meets an empty buffer, no IndexError is ever raised       *)
+(* After the final disconnect                                                            *)
 (* ------------------------------------------------------------------------------------ *)
-Definition pc_ok (p : cpc) (scr : list cop) : Prop :=
-  match p, scr with
-  | CDone, [] => True
-  | (RTest | RCW _ | RCRead | RIW _ | RClear | RPop), Recv _ :: _ => True
-  | (EW _ | ERead | ESend), Emit :: _ => True
-  | _, _ => False
-  end.
-Definition blk_ok (c : cfg) : Prop :=
-  match pc c with
-  | RCW WBlocked | EW WBlocked => cev (sh c) = false
-  | RIW WBlocked => iev (sh c) = false
-  | RIW WNotified => iev (sh c) = true
-  | RPop => buf (sh c) <> []
-  | _ => True
-  end.
-Definition outs_ok (c : cfg) : Prop := ~ In (Raised IndexError) (outs (sh c)).
-Definition ctl_inv (c : cfg) : Prop := pc_ok (pc c) (cscript c) /\ blk_ok c /\ outs_ok c.
+(* the connection has ended for good and the Client has nothing more to deliver *)
+Definition after_final (c : cfg) : Prop :=
+  prods_done c = true /\ conn (sh c) = false /\ cev (sh c) = true.
+(* the call in progress has produced its outcome *)
+Definition call_over (c c' : cfg) : Prop :=
+  List.length (cscript c') < List.length (cscript c) /\
+  List.length (outs (sh c')) = S (List.length (outs (sh c))).
 
-Lemma not_in_snoc (x y : out) l : ~ In x l -> x <> y -> ~ In x (l ++ [y]).
-Proof. intros H1 H2 H. apply in_app_or in H as [H|[H|[]]]; [auto|congruence]. Qed.
+Lemma run_app v atomic c s1 s2 : run v atomic c (s1 ++ s2) = run v atomic (run v atomic c s1) s2.
+Proof. revert c; induction s1 as [|x s1 IH]; intro c; simpl; [reflexivity|apply IH]. Qed.
 
-Lemma snoc_not_nil {A} (l : list A) x : l ++ [x] <> [].
-Proof. destruct l; discriminate. Qed.
-
-Lemma ctl_init P C : ctl_inv (init P C).
+Lemma consumer_progress v c : ctl_inv c -> after_final c -> pc c <> CDone ->
+  exists n, n <= 6 /\ let c' := run v false c (repeat 0 n) in
+    after_final c' /\ (pc c' = RIW WBlocked \/ call_over c c').
 Proof.
-  unfold ctl_inv, blk_ok, outs_ok, init; simpl. destruct C as [|[t|] r]; simpl; auto.
+  intros (Hp & Hb & _) (Hd & Hcn & Hce) Hpc.
+  destruct c as [s p scr pr]. destruct s as [b ie ce cn ns ar ou en].
+  unfold blk_ok, after_final, call_over, prods_done in *. simpl in *. subst cn ce.
+  destruct p as [|[]| |[]| | |[]| | |]; try congruence;
+    destruct scr as [|[t|] scr']; simpl in Hp; try contradiction;
+    destruct b as [|x b]; destruct ie; destruct ns; try congruence;
+    first [ exists 0; split; [lia|]; cbn; rewrite ?app_length; cbn; repeat split; auto; (left; reflexivity) || (right; split; lia)
+          | exists 1; split; [lia|]; cbn; rewrite ?app_length; cbn; repeat split; auto; (left; reflexivity) || (right; split; lia)
+          | exists 2; split; [lia|]; cbn; rewrite ?app_length; cbn; repeat split; auto; (left; reflexivity) || (right; split; lia)
+          | exists 3; split; [lia|]; cbn; rewrite ?app_length; cbn; repeat split; auto; (left; reflexivity) || (right; split; lia)
+          | exists 4; split; [lia|]; cbn; rewrite ?app_length; cbn; repeat split; auto; (left; reflexivity) || (right; split; lia)
+          | exists 5; split; [lia|]; cbn; rewrite ?app_length; cbn; repeat split; auto; (left; reflexivity) || (right; split; lia)
+          | exists 6; split; [lia|]; cbn; rewrite ?app_length; cbn; repeat split; auto; (left; reflexivity) || (right; split; lia) ].
 Qed.
 
-Lemma ctl_step v c ch c' l : ctl_inv c -> micro v c ch = Some (c', l) -> ctl_inv c'.
+Lemma reach_trans v c0 c sched : mreach v c0 c -> mreach v c0 (run v false c sched).
+Proof. apply run_reach. Qed.
+
+(* On the pinned tree: after the final disconnect every pending call either produces its
+   outcome within six steps of the application task, or ends up registered in the wait on
+   the input flag - the ONLY place where it can get stuck. *)
+Theorem no_hang_except v P C c : mreach v (init P C) c -> after_final c ->
+  pc c = CDone \/
+  exists n, n <= 6 /\ let c' := run v false c (repeat 0 n) in
+    after_final c' /\ (pc c' = RIW WBlocked \/ call_over c c').
 Proof.
-  unfold ctl_inv, blk_ok, outs_ok. intros (Hp & Hb & Ho) E. destruct ch as [|[|i]]; simpl in E.
-  - destruct c as [s p scr pr]. destruct s as [b ie ce cn ns ar ou en]. unfold cstep in E. simpl in *.
-    destruct p as [|[]| |[]| | |[]| | |]; simpl in E;
-      destruct scr as [|[t|] [|[t'|] scr']]; simpl in Hp; try contradiction;
-      repeat match type of E with
-             | context [match ?x with _ => _ end] => destruct x eqn:?; simpl in E
-             end; try discriminate; inv_some; simpl in *;
-      repeat split; auto; try discriminate; try congruence;
-      try (apply not_in_snoc; [assumption|discriminate]).
-  - destruct c as [s p scr pr]. destruct s as [b ie ce cn ns ar ou en]. unfold tstep, cur_timeout in E. simpl in *.
-    destruct scr as [|[[|]|] [|[t'|] scr']]; try discriminate;
-      destruct p as [|[]| |[]| | |[]| | |]; try discriminate; inv_some; simpl in *;
-      repeat split; auto; try (apply not_in_snoc; [assumption|discriminate]).
-  - apply pstep_inv in E as (p & s' & cp' & p' & En & Eh & ->).
-    destruct c as [s cp scr pr]. destruct s as [b ie ce cn ns ar ou en]. simpl in *.
-    unfold phop in Eh. destruct (pscript p) as [|h rest]; [discriminate|].
-    destruct cp as [|[]| |[]| | |[]| | |];
-      destruct h; destruct (ppc p) as [|[|n]]; simpl in Eh; inv_some; simpl in *; repeat split; auto;
-      try apply snoc_not_nil; try congruence.
+  intros Hr Ha. destruct (pc c) eqn:E; try (left; reflexivity); right;
+    apply consumer_progress; auto; try (eapply ctl_reach; eauto); congruence.
 Qed.
 
-Lemma ctl_reach v P C c : mreach v (init P C) c -> ctl_inv c.
+(* ... and what happens there: with a timeout the timer ends the call with TimeoutError,
+   without one nothing is enabled any more (quiescent_stuck: for ever) *)
+Theorem input_wait_after_final v c : after_final c -> pc c = RIW WBlocked ->
+  if cur_timeout c
+  then exists c', tstep c = Some (c', [LTimeout IE; LRaise TimeoutError]) /\
+                  outs (sh c') = outs (sh c) ++ [Raised TimeoutError]
+  else quiescent v c = true.
 Proof.
-  apply (invariant_run ctl_inv v (init P C)); [apply ctl_init|].
-  intros; eapply ctl_step; eauto.
+  intros (Hd & _ & _) Hp. unfold tstep, quiescent, enabled. destruct (cur_timeout c) eqn:Et.
+  - rewrite Hp. eexists. split; reflexivity.
+  - cbn [micro]. unfold tstep, cstep. rewrite Et, Hp. exact Hd.
+Qed.
+Example no_hang_except_nontrivial :
+  let c := run pinned false (init P_g [Recv true; Recv false]) sched_g_thread in
+  after_final c /\ pc c = RIW WBlocked /\ cur_timeout c = true.
+Proof. vm_compute. repeat split. Qed.
+
+(* With the repair (__disconnect_final also sets the input flag) the full statement holds:
+   after the final disconnect the application task, given enough steps, completes every
+   pending and every later call. *)
+Lemma mid_final_done l : forallb prod_done l = true -> count mid_final l = 0.
+Proof.
+  induction l as [|p l IH]; simpl; [reflexivity|]. intro H. apply andb_true_iff in H as [H1 H2].
+  rewrite (IH H2). unfold prod_done in H1. rewrite mid_final_eq. destruct (pscript p); [reflexivity|discriminate].
 Qed.
 
-(* ------------------------------------------------------------------------------------ *)
-(* I3: the hand-off window.  Between receive()'s emptiness test and its clear(), either   *)
-(*     the input flag is set or every buffered item belongs to a producer that has        *)
-(*     appended and not yet signalled.                                                    *)
-(* ------------------------------------------------------------------------------------ *)
-Definition in_window (p : cpc) : bool := match p with RCW _ | RCRead | RIW _ => true | _ => false end.
-Definition win_inv (c : cfg) : Prop :=
-  in_window (pc c) = true ->
-  iev (sh c) = true \/ List.length (buf (sh c)) <= count mid_handoff (prods c).
-
-Lemma mid_handoff_eq p :
-  mid_handoff p = match pscript p with HEvent _ _ :: _ => negb (ppc p =? 0) | _ => false end.
-Proof. reflexivity. Qed.
-Lemma mid_final_eq p :
-  mid_final p = match pscript p with HFinal :: _ => negb (ppc p =? 0) | _ => false end.
-Proof. reflexivity. Qed.
-
-Lemma notify_window e p : in_window (notify e p) = in_window p.
-Proof. destruct e, p as [|[]| |[]| | |[]| | |]; reflexivity. Qed.
-
-Arguments notify : simpl never.
-
-Lemma win_step v c ch c' l : win_inv c -> micro v c ch = Some (c', l) -> win_inv c'.
+Lemma repaired_never_stuck P C c : mreach repaired (init P C) c -> after_final c -> pc c <> RIW WBlocked.
 Proof.
-  unfold win_inv. intros H E. destruct ch as [|[|i]]; simpl in E.
-  - destruct c as [s p scr pr]. destruct s as [b ie ce cn ns ar ou en]. unfold cstep in E. simpl in *.
-    destruct p as [|[]| |[]| | |[]| | |]; simpl in E;
-      repeat match type of E with
-             | context [match ?x with _ => _ end] => destruct x eqn:?; simpl in E
-             end; try discriminate; inv_some; simpl in *; auto; try (right; lia);
-      try (destruct scr as [|[t|] [|[t'|] scr']]; simpl; intros; discriminate).
-  - destruct c as [s p scr pr]. destruct s as [b ie ce cn ns ar ou en]. unfold tstep in E. simpl in *.
-    destruct (cur_timeout _); [|discriminate].
-    destruct p as [|[]| |[]| | |[]| | |]; try discriminate; inv_some; simpl in *;
-      destruct scr as [|[t|] [|[t'|] scr']]; simpl; intros; discriminate.
-  - apply pstep_inv in E as (p & s' & cp' & p' & En & Eh & ->).
-    destruct c as [s cp scr pr]. destruct s as [b ie ce cn ns ar ou en]. simpl in *.
-    unfold phop in Eh. destruct (pscript p) as [|h rest] eqn:Ep; [discriminate|].
-    destruct h; destruct (ppc p) as [|[|n]] eqn:Epc; simpl in Eh; inv_some; simpl;
-      rewrite ?notify_window; intro Hw; auto;
-      match goal with |- context [upd pr i ?q] => pose proof (count_upd mid_handoff pr i p q En) as Hc end;
-      rewrite !mid_handoff_eq in Hc; simpl in Hc; rewrite ?Ep, ?Epc in Hc; simpl in Hc;
-      try (destruct rest as [|[] rest']; simpl in Hc);
-      destruct (H Hw) as [Hi|Hl]; auto; right; rewrite ?app_length; simpl; lia.
+  intros Hr (Hd & Hcn & _) Hp. pose proof (fin_reach P C c Hr) as Hf.
+  destruct (ctl_reach repaired P C c Hr) as (_ & Hb & _). unfold fin_inv in Hf. unfold blk_ok in Hb.
+  rewrite Hp in Hf, Hb. destruct (Hf Hcn) as [Hi|Hm]; [congruence|].
+  unfold prods_done in Hd. rewrite (mid_final_done _ Hd) in Hm. lia.
 Qed.
 
-Lemma win_reach v P C c : mreach v (init P C) c -> win_inv c.
+Lemma repeat_add {A} (x : A) n m : repeat x (n + m) = repeat x n ++ repeat x m.
+Proof. induction n; simpl; [reflexivity|rewrite IHn; reflexivity]. Qed.
+
+Lemma done_stays v c n : pc c = CDone -> pc (run v false c (repeat 0 n)) = CDone.
 Proof.
-  apply (invariant_run win_inv v (init P C)).
-  - unfold win_inv, init; simpl. destruct C as [|[t|] r]; simpl; intros; discriminate.
-  - intros; eapply win_step; eauto.
+  intro H. induction n as [|n IH]; [exact H|]. simpl. unfold step. cbn [micro]. unfold cstep at 1. rewrite H.
+  simpl. exact IH.
 Qed.
+
+Theorem no_hang_repaired P C : forall k c, mreach repaired (init P C) c -> after_final c ->
+  List.length (cscript c) <= k ->
+  pc (run repaired false c (repeat 0 (6 * k))) = CDone.
+Proof.
+  induction k as [|k IH]; intros c Hr Ha Hk.
+  - destruct (ctl_reach repaired P C c Hr) as (Hp & _ & _).
+    destruct (cscript c); [|simpl in Hk; lia]. simpl. destruct (pc c); simpl in Hp; try contradiction. reflexivity.
+  - destruct (no_hang_except repaired P C c Hr Ha) as [Hd|(n & Hn & H)].
+    + apply done_stays. exact Hd.
+    + cbv zeta in H. destruct H as (Ha' & [Hb|(Hl & _)]).
+      * exfalso. eapply repaired_never_stuck; [|exact Ha'|exact Hb]. apply reach_trans. exact Hr.
+      * replace (6 * S k) with (n + (6 * k + (6 - n))) by lia.
+        rewrite repeat_add, run_app.
+        set (c' := run repaired false c (repeat 0 n)) in *.
+        assert (Hr' : mreach repaired (init P C) c') by (apply reach_trans; exact Hr).
+        rewrite repeat_add, run_app. apply done_stays. apply IH; auto. lia.
+Qed.
+Example no_hang_repaired_nontrivial :
+  let c := run repaired false (init P_g [Recv false; Recv true]) [0; 0; 0; 0; 2; 2; 2; 2; 2] in
+  after_final c /\ pc c = RIW WNotified /\
+  outs (sh (run repaired false c (repeat 0 12))) = [Raised DisconnectedError; Raised DisconnectedError].
+Proof. vm_compute. repeat split. Qed.
+
+Lemma runs_are_reachable v atomic P C sched : mreach v (init P C) (run v atomic (init P C) sched).
+Proof. apply reach_run. Qed.
